@@ -214,6 +214,16 @@ func runC07(e *Env) {
 				}
 			}
 		}
+		// the same rejections, decided on the paths of one loop iteration instead of on the shape of one `if`: every path
+		// that produces an entry has passed the positive tests (name found in the table; no earlier entry for the number;
+		// an existing entry that is merged into has conditions).  With E1.nodrop (every name ends in exactly one of
+		// {entry, problem}) a name failing a test must end in a problem.
+		for cls, ok := range entryGuards(p, ts) {
+			if ok && classes[cls] == 0 {
+				classes[cls]++
+				r.OK("E3.reject-inventory", "toSyscallsWithConditions/"+cls+"/by-paths", p.Pos(ts.Pos()), "every path that produces an entry has passed the corresponding test")
+			}
+		}
 		for _, want := range []string{"unknown-name/Names", "unknown-name/NamesWithCondtions", "duplicate", "conditional+unconditional", "problems-are-fatal"} {
 			r.Check(classes[want] >= 1, "E3.reject-inventory", "toSyscallsWithConditions/has/"+want, p.Pos(ts.Pos()), "check present", "the required rejection `"+want+"` was not found in toSyscallsWithConditions (removed, or its guard no longer has the required shape)")
 		}
@@ -499,20 +509,40 @@ func checkArchNonNil(e *Env, m *e1Model) {
 		base string
 	}
 	var guards []guard
-	for _, b := range pa.Blocks {
-		ifi, ok := flow.LastIf(b)
-		if !ok {
-			continue
+	// Policy.Assemble itself and the helpers of the package it calls (an `ensureArch` method)
+	fns := []*ssa.Function{pa}
+	for _, c := range flow.Calls(pa) {
+		if cal := flow.Callee(c); cal != nil && cal.Pkg != nil && cal.Pkg.Pkg.Path() == load.PkgRoot && len(cal.Blocks) > 0 && cal != m.fragFn {
+			fns = append(fns, cal)
 		}
-		bo, ok := ifi.Cond.(*ssa.BinOp)
-		if !ok || bo.Op != token.EQL || !flow.IsNilConst(bo.Y) {
-			continue
-		}
-		o := res.Of(bo.X, nil, bo)
-		if o.Kind == origin.KField && o.Field.Name() == "arch" {
-			guards = append(guards, guard{ifi, o.Args[0].String()})
+	}
+	for _, f := range fns {
+		for _, b := range f.Blocks {
+			ifi, ok := flow.LastIf(b)
+			if !ok {
+				continue
+			}
+			c := flow.Norm(flow.Cond{V: ifi.Cond, Pol: true})
+			bo, ok := c.V.(*ssa.BinOp)
+			if !ok || (bo.Op != token.EQL && bo.Op != token.NEQ) || !flow.IsNilConst(bo.Y) {
+				continue
+			}
+			o := res.Of(bo.X, nil, bo)
+			if o.Kind != origin.KField || o.Field.Name() != "arch" {
+				continue
+			}
+			// the successor taken when the pointer is nil
+			nilArm := b.Succs[0]
+			if (bo.Op == token.EQL) != c.Pol {
+				nilArm = b.Succs[1]
+			}
+			base := o.Args[0].String()
+			if f != pa {
+				base = "param:" + base // the helper's receiver is the policy
+			}
+			guards = append(guards, guard{ifi, base})
 			// the nil arm must assign the field (or return an error) on every path
-			reg := flow.Region(b, b.Succs[0])
+			reg := flow.Region(b, nilArm)
 			assigned := false
 			for blk := range reg {
 				for _, in := range blk.Instrs {
@@ -530,7 +560,7 @@ func checkArchNonNil(e *Env, m *e1Model) {
 					}
 				}
 			}
-			r.Check(assigned, "E6.nil", "Policy.Assemble/arch-assigned-when-nil/"+baseName(o.Args[0].String()), p.Pos(ifi.Pos()), "a nil arch is replaced before use", "a nil architecture pointer is detected but not replaced")
+			r.Check(assigned, "E6.nil", "Policy.Assemble/arch-assigned-when-nil/"+baseName(base), p.Pos(ifi.Pos()), "a nil arch is replaced before use", "a nil architecture pointer is detected but not replaced")
 		}
 	}
 	r.Check(len(guards) >= 2, "E6.nil", "Policy.Assemble/arch-nil-guards", p.Pos(pa.Pos()), "both the policy's and the group's architecture pointers are set before they are used", fmt.Sprintf("%d of the 2 nil guards on architecture pointers found: a nil pointer would be dereferenced while compiling", len(guards)))
@@ -544,4 +574,163 @@ func baseName(s string) string {
 		return "policy"
 	}
 	return "other"
+}
+
+
+// entryGuards enumerates the paths of one iteration of the two name loops of the validation function and reports, per
+// rejection class, whether every path that produces an entry (appends one, or merges conditions into an existing one)
+// carries the guard that excludes the defect.
+func entryGuards(p *load.Program, ts *ssa.Function) map[string]bool {
+	out := map[string]bool{}
+	res := origin.NewResolver()
+	getSys := p.Func(load.PkgRoot, "getSyscall")
+	g := flow.G(ts)
+	type pathT struct {
+		conds  []flow.Cond
+		append bool // a new entry is appended
+		merge  bool // conditions are stored into an existing entry
+	}
+	isFound := func(cd flow.Cond) bool {
+		c := flow.Norm(cd)
+		ex, ok := c.V.(*ssa.Extract)
+		if !ok || ex.Index != 1 || !c.Pol {
+			return false
+		}
+		switch t := ex.Tuple.(type) {
+		case *ssa.Lookup:
+			mo := res.Of(t.X, nil, t)
+			return mo.Kind == origin.KField && mo.Field.Name() == "SyscallNames"
+		case *ssa.Call:
+			// (number, found) helper, verified by numberOrigin on the number it returns
+			if h := flow.Callee(t); h != nil && h.Signature.Results().Len() == 2 {
+				if num := flow.ResultN(t, 0); num != nil {
+					// the helper analysis does not depend on the use site: ask for the helper part only
+					ok, detail := numberOrigin(origin.NewResolver(), num, t, t.Block(), 0)
+					return ok || strings.Contains(detail, "helper-returns-table-number=true")
+				}
+			}
+		}
+		return false
+	}
+	isNilCmp := func(cd flow.Cond) (call *ssa.Call, isNil bool, ok bool) {
+		c := flow.Norm(cd)
+		bo, isBo := c.V.(*ssa.BinOp)
+		if !isBo || (bo.Op != token.EQL && bo.Op != token.NEQ) {
+			return nil, false, false
+		}
+		v := bo.X
+		if flow.IsNilConst(bo.X) {
+			v = bo.Y
+		} else if !flow.IsNilConst(bo.Y) {
+			return nil, false, false
+		}
+		cl, isCall := v.(*ssa.Call)
+		if !isCall || getSys == nil || flow.Callee(cl) != getSys {
+			return nil, false, false
+		}
+		return cl, (bo.Op == token.EQL) == c.Pol, true
+	}
+	for _, l := range flow.CountedLoops(ts) {
+		over := res.Of(l.Over, nil, nil).String()
+		kind := ""
+		switch {
+		case strings.Contains(over, "NamesWithCondtions"):
+			kind = "NamesWithCondtions"
+		case strings.Contains(over, ".Names"):
+			kind = "Names"
+		default:
+			continue
+		}
+		var paths []pathT
+		var walk func(b *ssa.BasicBlock, cur pathT, seen map[*ssa.BasicBlock]bool)
+		walk = func(b *ssa.BasicBlock, cur pathT, seen map[*ssa.BasicBlock]bool) {
+			if len(paths) > 2048 || seen[b] {
+				return
+			}
+			if b == l.Header {
+				paths = append(paths, cur)
+				return
+			}
+			seen[b] = true
+			defer delete(seen, b)
+			for _, in := range b.Instrs {
+				switch x := in.(type) {
+				case *ssa.Call:
+					if a := isAppend(x); a != nil {
+						if st, ok := a.Type().Underlying().(*types.Slice); ok && isNamed(st.Elem(), load.PkgRoot, "SyscallWithConditions") {
+							cur.append = true
+						}
+					}
+				case *ssa.Store:
+					if fa, ok := x.Addr.(*ssa.FieldAddr); ok && fieldName(fa) == "Conditions" {
+						if pt, ok := fa.X.Type().Underlying().(*types.Pointer); ok && isNamed(pt.Elem(), load.PkgRoot, "SyscallWithConditions") {
+							if c, ok := fa.X.(*ssa.Call); ok && getSys != nil && flow.Callee(c) == getSys {
+								cur.merge = true
+							}
+						}
+					}
+				}
+			}
+			succs := g.Succs(b)
+			if len(succs) == 0 {
+				return
+			}
+			if ifi, ok := flow.LastIf(b); ok && len(succs) == 2 && succs[0] != succs[1] {
+				for k, pol := range []bool{true, false} {
+					nc := pathT{append(append([]flow.Cond{}, cur.conds...), flow.Cond{V: ifi.Cond, Pol: pol, At: ifi}), cur.append, cur.merge}
+					walk(succs[k], nc, seen)
+				}
+				return
+			}
+			for _, sx := range succs {
+				walk(sx, cur, seen)
+			}
+		}
+		walk(l.Body, pathT{}, map[*ssa.BasicBlock]bool{})
+		nEntry := 0
+		allFound, allNoDup, mergeGuarded := true, true, true
+		for _, pt := range paths {
+			if !pt.append && !pt.merge {
+				continue
+			}
+			nEntry++
+			found, nodup, existing, hasConds := false, false, false, false
+			for _, cd := range pt.conds {
+				if isFound(cd) {
+					found = true
+				}
+				if _, isNil, ok := isNilCmp(cd); ok {
+					if isNil {
+						nodup = true
+					} else {
+						existing = true
+					}
+				}
+				if arg, pr, ok := flow.LenPred(cd.V, cd.Pol); ok && pr.NonZero() {
+					if o := res.Of(arg, nil, nil); o.Kind == origin.KField && o.Field.Name() == "Conditions" && originCalls(o, getSys) {
+						hasConds = true
+					}
+				}
+			}
+			if !found {
+				allFound = false
+			}
+			if pt.append && !nodup {
+				allNoDup = false
+			}
+			if pt.merge && !(existing && hasConds) {
+				mergeGuarded = false
+			}
+		}
+		if nEntry == 0 {
+			continue
+		}
+		out["unknown-name/"+kind] = allFound
+		if kind == "Names" {
+			out["duplicate"] = allNoDup
+		} else {
+			out["conditional+unconditional"] = mergeGuarded
+		}
+	}
+	return out
 }
